@@ -20,6 +20,7 @@ package main
 import (
 	"flag"
 	"fmt"
+	"hash/fnv"
 	"math/rand"
 	"reflect"
 	"strings"
@@ -269,6 +270,10 @@ func (x *hpXDec) block(b []byte) ([]hpField, bool) {
 	return x.got, err == nil && cerr == nil
 }
 
+// hpNoFieldText is the text of the sentinel http2.ErrNoField that the proposed fix for D11
+// introduces (matched by text: the symbol does not exist in an unfixed tree).
+const hpNoFieldText = "hpack: header block ended without another field"
+
 // hpRealDec feeds one block to the real decoder the way the callers in the
 // library do: one HeaderField per block, call until the bytes are used up.
 func hpRealDec(hp *http2.HPACK, b []byte, srv bool) map[string]any {
@@ -284,6 +289,9 @@ func hpRealDec(hp *http2.HPACK, b []byte, srv bool) map[string]any {
 			b, err = http2.VerifNextField(hp, hf, true, fields, b)
 		} else {
 			b, err = hp.Next(hf, b)
+		}
+		if err != nil && err.Error() == hpNoFieldText {
+			break // proposed fix for D11: "the block is over, hf holds no new field" - not a failure
 		}
 		if err != nil {
 			failed = true
@@ -303,6 +311,28 @@ func hpRealDec(hp *http2.HPACK, b []byte, srv bool) map[string]any {
 type hpDecRec struct {
 	tw *TraceW
 	t  int
+	hpStats
+}
+
+// hpStats: what a run covered, printed as one JSON line on stdout for the evidence file.
+type hpStats struct {
+	traces, blocks int
+	seen           map[uint64]struct{}
+}
+
+func (s *hpStats) note(blocks int, key []byte) {
+	s.traces++
+	s.blocks += blocks
+	if s.seen == nil {
+		s.seen = map[uint64]struct{}{}
+	}
+	h := fnv.New64a()
+	h.Write(key)
+	s.seen[h.Sum64()] = struct{}{}
+}
+
+func (s *hpStats) print() {
+	fmt.Printf("{\"traces\":%d,\"blocks\":%d,\"nontrivial\":%d}\n", s.traces, s.blocks, len(s.seen))
 }
 
 // run records one C03 trace.  It returns x/net's verdict per block so generators
@@ -334,6 +364,11 @@ func (rec *hpDecRec) run(fam string, lim int, blocks [][]byte) (xfields [][]hpFi
 		bl = append(bl, m)
 	}
 	rec.tw.Emit(rec.t, map[string]any{"k": "dec", "fam": fam, "lim": lim, "blocks": bl})
+	key := []byte{byte(lim), byte(lim >> 8)}
+	for _, b := range blocks {
+		key = append(append(key, byte(len(b)), byte(len(b)>>8), 0xff), b...)
+	}
+	rec.note(len(blocks), key)
 	return
 }
 
@@ -786,6 +821,7 @@ func cmdHpackDec(args []string) error {
 			return err
 		}
 	}
+	rec.print()
 	return tw.Close()
 }
 
@@ -899,6 +935,7 @@ type hpEncRec struct {
 	tw          *TraceW
 	t           int
 	part, parts int
+	hpStats
 }
 
 func (rec *hpEncRec) run(fam string, nocomp, nodyn bool, ops []hpEncOp) {
@@ -940,6 +977,14 @@ func (rec *hpEncRec) run(fam string, nocomp, nodyn bool, ops []hpEncOp) {
 			"x": map[string]any{"got": hpTriples(xf), "err": !ok}})
 	}
 	rec.tw.Emit(rec.t, map[string]any{"k": "enc", "fam": fam, "nocomp": nocomp, "nodyn": nodyn, "ops": recs})
+	key := []byte(fmt.Sprintf("%v|%v|%v", nocomp, nodyn, ops))
+	nblk := 0
+	for _, op := range ops {
+		if op.Op == "block" {
+			nblk++
+		}
+	}
+	rec.note(nblk, key)
 }
 
 // hpHuffLenStr returns a string whose Huffman form has exactly L octets.
@@ -963,21 +1008,22 @@ func hpHuffLenStr(L int, alphabet string, r *rand.Rand) string {
 
 func hpEncTemplates() (full, core []hpField) {
 	base := []hpField{
-		{N: ":method", V: "GET"},           // static full match (2)
-		{N: ":path", V: "/x"},              // static name match (4)
-		{N: ":status", V: "200"},           // static full match (8)
-		{N: "accept-charset", V: "u"},      // static name match at 15 = 2^4-1
-		{N: "accept-encoding", V: "br"},    // 16
-		{N: "cookie", V: "a=b"},            // 32
-		{N: "www-authenticate", V: "x"},    // 61
-		{N: "authorization", V: ""},        // 23, empty value = static full match
-		{N: "x-new", V: "v"},               // new name
-		{N: "x-new", V: ""},                // empty value
-		{N: "static00", V: "v"},            // Huffman form of the name ends in 0x00
-		{N: "x\x00", V: "v"},               // raw form ends in NUL
-		{N: "x-z", V: "00000000"},          // value whose Huffman form is all zero octets
-		{N: "x-bin", V: "\x00\xff\x00"},    // binary value ending ... (raw ends in 0x00)
-		{N: "", V: "v"},                    // empty name: legal HPACK
+		{N: ":method", V: "GET"},                  // static full match (2)
+		{N: ":path", V: "/x"},                     // static name match (4)
+		{N: ":status", V: "200"},                  // static full match (8)
+		{N: "accept-charset", V: "u"},             // static name match at 15 = 2^4-1
+		{N: "accept-encoding", V: "br"},           // 16
+		{N: "cookie", V: "a=b"},                   // 32
+		{N: "www-authenticate", V: "x"},           // 61
+		{N: "authorization", V: ""},               // 23, empty value = static full match
+		{N: "accept-charset", V: ""},              // 15, full match: as a sensitive field the index fills the 4-bit prefix
+		{N: "x-new", V: "v"},                      // new name
+		{N: "x-new", V: ""},                       // empty value
+		{N: "static00", V: "v"},                   // Huffman form of the name ends in 0x00
+		{N: "x\x00", V: "v"},                      // raw form ends in NUL
+		{N: "x-z", V: "00000000"},                 // value whose Huffman form is all zero octets
+		{N: "x-bin", V: "\x00\xff\x00"},           // binary value ending ... (raw ends in 0x00)
+		{N: "", V: "v"},                           // empty name: legal HPACK
 		{N: "x-long", V: strings.Repeat("q", 40)}, // 78 octets: larger than a 64-octet table
 	}
 	for _, b := range base {
@@ -1128,6 +1174,7 @@ func cmdHpackEnc(args []string) error {
 			return err
 		}
 	}
+	rec.print()
 	return tw.Close()
 }
 
